@@ -424,6 +424,11 @@ class Mineral:
                 y, self.n_grains
             )
             deformation_gradient_diff = velocity_gradient @ deformation_gradient
+            if strain_rate_max == 0:
+                # No strain rate means no texture evolution (and avoids 0/0 below).
+                return np.hstack(
+                    (deformation_gradient_diff.flatten(), np.zeros(10 * self.n_grains))
+                )
             deformation_gradient_spin = _tensors.polar_decompose(
                 deformation_gradient_diff
             )[1]
